@@ -3,7 +3,7 @@ from tools.krun import Harness
 from tools.extract import Unit, Rw
 
 PROPERTY = "C16"
-PRELUDE = ["../common/base.rs", "lemmas.rs", "config_stubs.rs", "repair_stubs.rs", "warmup_stubs.rs"]
+PRELUDE = ["../common/base.rs", "lemmas.rs", "config_stubs.rs", "repair_stubs.rs", "warmup_stubs.rs", "warm_up_fn_stubs.rs"]
 CO = "crates/core/src/commands/config.rs"
 R_DISCARD = Rw(r"(?m)^(\s*)_ = ", r"\1let _ = ", regex=True, count=None, why="`_ = e;` -> `let _ = e;`")
 UNITS = [
@@ -159,6 +159,64 @@ SATELLITES = [("C15", ["RewriteOptions", "RepairSnapshotsOptions", "ConfigOption
               # check's hot/cold comparisons (hot listing against cold listing, tree packs in the hot store) are units of C05's spec
               ("C05", ["check_packs_list", "check_packs_list_hot", "check_hot_files"])]
 
+WUF = "crates/core/src/repository/warm_up.rs"
+R_SIGU = [Rw("repo: &Repository<S>,", "repo: &VRepoU,", sig=True, why="repository -> stub (options + backend)"),
+          Rw("tpe: FileType,", "tpe: FileTypeU,", sig=True, why="file type -> opaque"),
+          Rw(") -> RusticResult<()>", "w: &mut ReqWorld) -> RusticResult<()>", sig=True, why="ghost parameter: the warm-up requests made so far")]
+UNITS += [
+    Unit(name="WarmUpType", file=WUF, kind="type", anchor="enum WarmUpType {", rewrites=[Rw("", "", count=None, kind="attrs", optional=True, why="derive removed")]),
+    # warm_up: whenever a warm-up command is configured or the backend needs warm-up, EVERY id handed in is requested
+    Unit(name="warm_up_fn", file=WUF, anchor="pub(crate) fn warm_up<S>(", ret_name="r",
+         functions=["repository::warm_up::warm_up"],
+         rewrites=R_SIGU + [
+             Rw("fn warm_up<S>(", "fn warm_up_fn(", sig=True, why="generic dropped; renamed (the name warm_up is the stub used by the caller's unit)"),
+             Rw("ids: impl ExactSizeIterator<Item = Id>,", "ids: IdsU,", sig=True, why="iterator of ids -> value with its sequence"),
+             Rw(r"&repo\.be,\s*\)\?;", "&repo.be, w)?;", regex=True, why="ghost parameter passed on"),
+             Rw("warm_up_repo(repo, tpe, ids)?", "warm_up_repo(repo, tpe, ids, w)?", why="ghost parameter passed on"),
+         ],
+         contract="""
+    ensures
+        forall|x: u64| old(w).requested@.contains(x) ==> final(w).requested@.contains(x),
+        /*@every_id_is_requested_when_warm_up_is_needed*/ r is Ok && (repo.opts.warm_up_command is Some || repo.be.needs) ==> all_requested(*final(w), ids.s@),
+"""),
+    # warm_up_wait: requests first (warm_up), waits afterwards
+    Unit(name="warm_up_wait_fn", file=WUF, anchor="pub(crate) fn warm_up_wait<S>(", ret_name="r",
+         functions=["repository::warm_up::warm_up_wait"],
+         rewrites=R_SIGU + [
+             Rw("fn warm_up_wait<S>(", "fn warm_up_wait_fn(", sig=True, why="generic dropped; renamed"),
+             Rw("ids: impl ExactSizeIterator<Item = Id> + Clone,", "ids: IdsU,", sig=True, why="iterator of ids -> value with its sequence"),
+             Rw("warm_up(repo, tpe, ids.clone())?", "warm_up(repo, tpe, ids.clone(), w)?", why="warm_up -> stub carrying the contract proved for unit warm_up_fn"),
+             Rw(r"&repo\.be,\s*\)\?;", "&repo.be, w)?;", regex=True, why="ghost parameter passed on"),
+             Rw(r"let p = repo\.progress_spinner\(&format!\(\"waiting \{wait\}\.\.\.\"\)\);\s*sleep\(.*?\);\s*p\.finish\(\);", "vsleep_for(&wait, repo);", regex=True,
+                why="ELIDED: progress spinner + sleep(duration conversion with closures): waiting requests nothing"),
+         ],
+         contract="""
+    ensures
+        /*@every_id_is_requested_before_waiting*/ r is Ok && (repo.opts.warm_up_command is Some || repo.be.needs) ==> all_requested(*final(w), ids.s@),
+"""),
+    # warm_up_repo: one backend warm_up call per id (thread pool: each spawned task ASSUMED to run exactly once)
+    Unit(name="warm_up_repo_loop", file=WUF, kind="block", within="fn warm_up_repo<S>(",
+         anchor="@closure:pool.in_place_scope(|scope|",
+         block_sig="fn warm_up_repo_loop(ids: Vec<u64>, backend: &VBeU, tpe: FileTypeU, progress_bar_ref: &ProgressU, w: &mut ReqWorld)",
+         block_tail="",
+         functions=["repository::warm_up::warm_up_repo (the loop spawning one warm-up request per id)"],
+         rewrites=[
+             Rw(r"scope\.spawn\(move \|_\| \{(?P<b>.*)\}\);", r"{\g<b>}", regex=True, why="SEQUENTIALISED: scope.spawn(move |_| { body }) -> { body } (each task runs exactly once before the scope ends: rayon contract, ASSUMED)"),
+             Rw("for id in ids {", "for id in itf: ids {", why="Verus for-loop syntax"),
+             Rw("backend.warm_up(tpe, &id)", "backend.warm_up(tpe, &id, w)", why="ghost parameter: the requests made so far"),
+         ],
+         contract="""
+    ensures
+        forall|x: u64| old(w).requested@.contains(x) ==> final(w).requested@.contains(x),
+        /*@one_request_per_id*/ forall|i: int| 0 <= i < ids@.len() ==> final(w).requested@.contains(#[trigger] ids@[i]),
+""",
+         loops={1: """
+            invariant
+                forall|x: u64| old(w).requested@.contains(x) ==> w.requested@.contains(x),
+                forall|i: int| 0 <= i < itf.index@ ==> w.requested@.contains(#[trigger] ids@[i]),
+"""}),
+]
+
 KANI = [
     Harness(M + "c16_write_bytes", functions=[HC + "write_bytes"], expect_stubs=1),
     Harness(M + "c16_remove", functions=[HC + "remove"], expect_stubs=1),
@@ -180,5 +238,6 @@ META = {
         "repair hot/cold: get_missing_files (which files count as missing: closures, iterator adapters) and copy (rayon) -- stubs in the correct_missing_files unit",
         "WHICH packs PrunePlan::repack_packs, RestorePlan::to_packs / the read-data subset select (iterator chains); the ordering at the call sites of restore, check --read-data, repair index and prune IS decided",
         "equivalence with a single-store repository beyond single backend calls",
+        "warm_up_command / warm_up_batch_singular / _plural (running the user's command: process spawning, placeholders, retries) -- a stub assumed to hand every id to the command; warm_up, warm_up_wait and the request loop of warm_up_repo ARE units",
     ],
 }
